@@ -68,20 +68,18 @@ func (s *SourceSplitter) Start(ckpt *snapshotpb.SourceCheckpoint) error {
 	s.ctx = ctx
 	s.cancel = cancel
 
-	var pendingShards []SourceSplitterShard
-
 	// Load the splitter state
 	var splitterState kinesispb.SplitterState
 	if err := proto.Unmarshal(ckpt.GetSplitterState(), &splitterState); err != nil {
 		return fmt.Errorf("kinesis.SourceSplitter failed to unmarshal splitter state: %w", err)
 	}
 
-	// Build a list of shards that need to be assigned
-	pendingShards = make([]SourceSplitterShard, len(splitterState.AssignedShards))
+	// Track the checkpointed shards again. They are loaded unassigned.
+	loadedShards := make([]SourceSplitterShard, len(splitterState.AssignedShards))
 	for i, shard := range splitterState.GetAssignedShards() {
-		pendingShards[i] = newSourceSplitterShardFromProto(shard)
+		loadedShards[i] = newSourceSplitterShardFromProto(shard)
 	}
-	s.splitTracker.LoadSplits(pendingShards, splitterState.LastAssignedShardId)
+	s.splitTracker.LoadSplits(loadedShards, splitterState.LastAssignedShardId)
 
 	// Load the split states to get the cursors
 	for _, splitState := range ckpt.GetSplitStates() {
@@ -97,10 +95,10 @@ func (s *SourceSplitter) Start(ckpt *snapshotpb.SourceCheckpoint) error {
 	if err != nil {
 		return fmt.Errorf("kinesis.SourceSplitter failed to discover shards: %w", err)
 	}
-	pendingShards = append(pendingShards, s.splitTracker.AvailableSplits()...)
 
-	// Do the initial split assignment
-	s.assignShards(ctx, pendingShards)
+	// Do the initial split assignment. The loaded shards are among the
+	// available ones, they must not be handed out a second time.
+	s.assignShards(ctx, s.splitTracker.AvailableSplits())
 
 	// Setup background shard assignment
 	s.shardDiscoveryTicker = time.NewTicker(s.shardDiscoveryInterval)
